@@ -446,7 +446,12 @@ class TagList(UserList[TagNode]):
                 if prev_was_add_ws:
                     html_ += "  " * indent
 
-                html_ += child._repr_html_()  # pyright: ignore[reportPrivateUsage]
+                child_html = child._repr_html_()  # pyright: ignore[reportPrivateUsage]
+                if isinstance(child_html, HTML):
+                    # `str += HTML` would call HTML.__radd__(), which escapes everything
+                    # rendered so far
+                    child_html = child_html.as_string()
+                html_ += child_html
 
                 prev_was_add_ws = False
 
